@@ -1427,10 +1427,19 @@ func (vm *VM) run() (Addr, bool) {
 						}
 					}
 				default:
-					if kind == reflect.Pointer {
-						v = v.Elem()
+					var length int
+					if kind == reflect.Pointer && v.IsNil() {
+						// Only the length of a nil pointer to array can be used.
+						length = v.Type().Elem().Len()
+						if c != 0 && length > 0 {
+							panic(errNilPointer)
+						}
+					} else {
+						if kind == reflect.Pointer {
+							v = v.Elem()
+						}
+						length = v.Len()
 					}
-					length := v.Len()
 					for i := range length {
 						if b != 0 {
 							vm.setInt(b, int64(i))
